@@ -204,7 +204,7 @@ def gen_netlist(rng, mode="full", max_stmts=10, max_inputs=5, depth=4, lookalike
                 q = rng.random()
                 if q < 0.12:
                     pins.append([p, None])
-                elif q < 0.2 and not fast:
+                elif q < 0.2:
                     pins.append([p, "__omit__"])
                 elif q < 0.27:
                     pins.append([p, ["c", rng.randint(0, 1)]])
@@ -214,7 +214,7 @@ def gen_netlist(rng, mode="full", max_stmts=10, max_inputs=5, depth=4, lookalike
                 q = rng.random()
                 if q < 0.15:
                     pins.append([p, None])
-                elif q < 0.22 and not fast:
+                elif q < 0.22:
                     pins.append([p, "__omit__"])
                 else:
                     w = fresh_wire()
